@@ -146,3 +146,53 @@ func verifHarness_C20_std() {
 	verifC20Program(a, 3, []int{0, 1, 7, 8, 9}, "Std")
 	verifAssert(false, "witness")
 }
+
+
+// grow-then-free-then-malloc: a buffer that grew through Append/AppendString/
+// Realloc goes back to the pool and the pool serves later requests from it
+func verifC20GrowFreeMalloc(a Allocator, sizes []int, name string) {
+	verifPoolMode(1)
+	s1 := sizes[verifChoose("malloc", len(sizes))]
+	s2 := sizes[verifChoose("grow", len(sizes))]
+	s3 := sizes[verifChoose("malloc2", len(sizes))]
+	p := a.Malloc(s1)
+	verifAssertD(len(*p) == s1, "malloc-length", name)
+	old := verifBytes("old", s1)
+	copy(*p, old)
+	more := verifBytes("more", s2)
+	switch verifChoose("grow_op", 3) {
+	case 0:
+		p = a.Append(p, more...)
+	case 1:
+		p = a.AppendString(p, string(more))
+	default:
+		p = a.Realloc(p, s1+s2)
+		if len(*p) == s1+s2 {
+			copy((*p)[s1:], more)
+		}
+	}
+	want := append(append([]byte(nil), old...), more...)
+	verifAssertD(len(*p) == len(want) && verifEqBytes(*p, want), "contents-preserved", name)
+	keep := a.Malloc(3)
+	copy(*keep, []byte("abc"))
+	a.Free(p)
+	q := a.Malloc(s3)
+	verifAssertD(q != nil && len(*q) == s3, "malloc-length", name+":after-free")
+	if q != nil {
+		for i := range *q {
+			(*q)[i] = 0xAA
+		}
+		verifAssertD(!verifC20Overlap(*q, *keep), "live-buffers-disjoint", name)
+	}
+	verifAssertD(string(*keep) == "abc", "contents-preserved", name+":bystander")
+}
+
+func verifHarness_C20_grow_free_malloc_aligned() {
+	verifC20GrowFreeMalloc(NewAligned(), []int{1, 31, 32, 33, 64, 65, 96, 97, 128, 129}, "Aligned")
+	verifAssert(false, "witness")
+}
+
+func verifHarness_C20_grow_free_malloc_mempool() {
+	verifC20GrowFreeMalloc(New(8, 16), []int{1, 7, 8, 9, 15, 16, 17}, "MemPool(8,16)")
+	verifAssert(false, "witness")
+}
